@@ -71,6 +71,10 @@ fn eval_zoned(rec: &Rec) -> Verdict<String> {
         None => local - zoff,
         Some(Off::Z) => local,
         Some(Off::Num { ns, .. }) => {
+            // InterpretISODateTimeOffset: CheckISODaysRange on the wall-clock date when an offset is to be matched
+            if days_from_civil(y, m, d).abs() > 100_000_000 {
+                return Verdict::Reject;
+            }
             if ns as i128 == zoff {
                 local - zoff
             } else {
